@@ -374,7 +374,10 @@ class BaseTemplate:
             cls.__module__, cls.__qualname__).encode('utf-8')
         sha = get_pkg_digest()
         # (lone surrogates are text like any other: they must not drop out)
-        sha.update(body.encode('utf-8', 'surrogatepass'))
+        encoded = body.encode('utf-8', 'surrogatepass')
+        # (the length marks where the body ends and the class name begins)
+        sha.update(b'%d;' % len(encoded))
+        sha.update(encoded)
         sha.update(class_name)
         # A free name is compiled differently when it is the name of a
         # Python builtin - and that is a property of the process (an
